@@ -710,19 +710,14 @@ fn gen_seg(out: &mut impl Write, tier: &str, rng: &mut Rng, part: &str, chunk: u
             }
         }
     }
-    // a byte order mark is text; texts beyond 64 KiB
-    {
-        let big = format!("{}\n  ", "x".repeat(70_000));
-        for s in [
-            format!("T{}", hexs("\u{feff}")),
-            format!("T{};B__;T0a", hexs("\u{feff}")),
-            format!("T{};C__;T{}", hexs("\u{feff} "), hexs("\u{feff}")),
-            format!("T{}", hexs(&big)),
-            format!("T{};B__;T{};B_-;T{}", hexs(&big), hexs(&big), hexs(&big)),
-            format!("T{};V-_;R____{};C__", hexs(&big), hexs(&big)),
-        ] {
-            seqs.push(s);
-        }
+    // a byte order mark is text
+    for s in [
+        format!("T{}", hexs("\u{feff}")),
+        format!("T{};B__;T0a", hexs("\u{feff}")),
+        format!("T{};C__;T{}", hexs("\u{feff} "), hexs("\u{feff}")),
+        format!("T{};B__;T78", hexs("\n\u{feff} ")),
+    ] {
+        seqs.push(s);
     }
     // richer tag interiors in a few text contexts
     let interiors = interior_items();
@@ -1114,6 +1109,27 @@ fn gen_rand(out: &mut impl Write, tier: &str, rng: &mut Rng) {
     }
 }
 
+// -- texts beyond 64 KiB ----------------------------------------------------------------------
+
+/// `big <tlk> <fam> <segs>`: like `seg`, with texts of more than 64 KiB (line and column counters of
+/// the lexer saturate there); checked against the Python implementation of the rules only
+fn gen_big(out: &mut impl Write) {
+    let d = default_fam().enc();
+    let big = format!("{}\n  ", "x".repeat(70_000));
+    let lines = format!("{}  ", "y\n".repeat(70_000));
+    for s in [
+        format!("T{}", hexs(&big)),
+        format!("T{};B__;T{};B_-;T{}", hexs(&big), hexs(&big), hexs(&big)),
+        format!("T{};V-_;R____{};C__", hexs(&big), hexs(&big)),
+        format!("T{};B__;T{};B-_;T0a", hexs(&lines), hexs(&lines)),
+        format!("T{};C_-;T{};V__", hexs(&lines), hexs(" \n ")),
+    ] {
+        for tlk in TLK {
+            emit(out, run_seg(tlk, &d, &s).replacen("seg ", "big ", 1));
+        }
+    }
+}
+
 // -- search kernels ---------------------------------------------------------------------------
 
 const KERN_ALPHA: [u8; 3] = [b'-', b'{', b'%'];
@@ -1421,6 +1437,9 @@ fn main() {
             if which == "all" || which == "rand" {
                 gen_rand(&mut out, &tier, &mut Rng::new(seed ^ 0x40));
             }
+            if which == "all" || which == "big" {
+                gen_big(&mut out);
+            }
             if which == "all" || which == "kern" {
                 gen_kern(&mut out);
             }
@@ -1443,6 +1462,7 @@ fn main() {
                 "cfg" => run_cfg(a[1]),
                 "rand" => run_rand(a[1], a[2], a[3]),
                 "kern" => run_kern(a[1], a[2]),
+                "big" => run_seg(a[1], a[2], a[3]).replacen("seg ", "big ", 1),
                 "entry" => run_entry(a[1], a[2], a[3]),
                 "wrap" => run_wrap(a[1], a[2], a[3], a[4]),
                 _ => panic!("bad stream"),
